@@ -25,7 +25,8 @@ from mc.result import Result, h64
 ID = 'C08'
 LEVEL = 'exploration'
 RULE = (
-    'complete tables. ladder: override{none,E0} x top sheet {text,bytes} x top @charset {E3,none} x all chains of per-level rows '
+    'complete tables. ladder: override{none,E0} x top sheet (parseString | parseUrl with transport{none,E4}) x {text,bytes} x '
+    'marker{BOM,@charset "E3",none} x all chains of per-level rows '
     '(transport{none,E1_l} x marker{BOM,@charset "E2_l",none} x delivery{bytes,text} with answer data; plus the three answers '
     'None, (None,None), (E1_l,None)) of length 1..D where only the last row may be a non-data answer or a row whose BOM is read '
     'by a decoder that does not know it (it turns into identifier characters in front of the @import, so nothing nested would be '
@@ -41,7 +42,7 @@ ASSUMPTIONS = [
     '(the documented text detector looks at the @charset rule only); text is never re-decoded, its marker must come back untouched',
     'a sheet read with an only-assumed UTF-8 hands no encoding down to its imports (they end up with UTF-8 either way)',
     'fetcher answers None / (None, None) / (charset, None): the import rule stays in the sheet, its styleSheet is None or has no rules',
-    'the top sheet has no transport rung (parseString): override > @charset (bytes: BOM/@charset through the css codec) > UTF-8',
+    'a top sheet given to parseString has no transport rung; one fetched by parseUrl has (the fetcher answers (charset, content) for it too)',
     'CSS escapes inside comments are decoded by this tokenizer, so a comment counts as lossless if its text comes back equal',
     'any spelling of a CSS escape (1-6 hex digits, optional white space) is accepted as "written as an escape"',
 ]
@@ -58,11 +59,12 @@ WD = 10  # seconds; a healthy case needs a few milliseconds
 MARK = b'\xc3\xa9'
 TEXT_MARK = 'é☃'  # marker of content that arrives as text: must come back exactly like this
 E_OVERRIDE = 'cp437'
-E_TOP = 'iso-8859-5'
+E_TOP = 'iso-8859-5'  # @charset of the top sheet
+E_TOP_TRANSPORT = 'cp1257'  # transport charset of the top sheet (only when it is fetched: parseUrl)
 E_TRANSPORT = ['koi8-r', 'cp866', 'mac-roman', 'cp1253']  # level 1, 2, 3, 4
 E_CONTENT = ['latin-1', 'cp1251', 'iso-8859-2', 'cp850']
 TOP_HREF = 'http://x/top.css'
-_ALL = ['utf-8', E_OVERRIDE, E_TOP] + E_TRANSPORT + E_CONTENT
+_ALL = ['utf-8', E_OVERRIDE, E_TOP, E_TOP_TRANSPORT] + E_TRANSPORT + E_CONTENT
 # mutually distinguishable: the marker bytes (and the BOM bytes) decode everywhere, to pairwise different strings
 assert len({MARK.decode(e) for e in _ALL}) == len(_ALL)
 for _e in _ALL[1:]:
@@ -72,10 +74,20 @@ DECODED_AS = {MARK.decode(e): ref.norm(e) for e in _ALL}
 DATA_ROWS = [[t, m, d, 'data'] for t in (0, 1) for m in ('bom', 'charset', 'none') for d in ('bytes', 'text')]
 END_ROWS = [[0, 'none', 'bytes', 'none'], [0, 'none', 'bytes', 'nonenone'], [1, 'none', 'bytes', 'nonenone']]
 ROWS = DATA_ROWS + END_ROWS
+# the top sheet: [via, delivery, transport, marker]; via 'string' = parseString(source, encoding=override, href=...),
+# via 'url' = parseUrl(href, encoding=override) with the fetcher answering (transport charset, source)
+TOPS = [['string', d, 0, m] for d in ('text', 'bytes') for m in ('none', 'charset', 'bom')] + [
+    ['url', d, t, m] for t in (0, 1) for d in ('text', 'bytes') for m in ('none', 'charset', 'bom')]
+
+
+def _tops(override):
+    """a BOM exists in bytes only; read by a decoder that does not know it, it swallows the @import (see _junk)"""
+    return [t for t in TOPS if not (t[3] == 'bom' and (t[1] == 'text' or override or t[2]))]
+
 
 
 def _depth(tier):
-    return 3 if tier == 'quick' else 4
+    return 2 if tier == 'quick' else 3
 
 
 def _junk(row, override):
@@ -106,15 +118,14 @@ def _chains(first, override, depth):
     return out
 
 
-def _sheet_source(level, nlevels, row, as_bytes):
-    """source of the sheet at `level` (1-based) - bytes or text"""
-    t, m, d, a = row
+def _sheet_source(level, nlevels, marker, as_bytes, charset):
+    """source of the sheet at `level` (0 = top) - bytes or text"""
     imp = '' if level == nlevels else '@import "l%d.css";' % (level + 1)
     tail = imp + '\nj{}\n.m{content:"'
     if as_bytes:
-        pre = codecs.BOM_UTF8 if m == 'bom' else (b'@charset "%s";' % E_CONTENT[level - 1].encode('ascii') if m == 'charset' else b'')
+        pre = codecs.BOM_UTF8 if marker == 'bom' else (b'@charset "%s";' % charset.encode('ascii') if marker == 'charset' else b'')
         return pre + tail.encode('ascii') + MARK + b'"}'
-    pre = '\ufeff' if m == 'bom' else ('@charset "%s";' % E_CONTENT[level - 1] if m == 'charset' else '')
+    pre = '\ufeff' if marker == 'bom' else ('@charset "%s";' % charset if marker == 'charset' else '')
     return pre + tail + TEXT_MARK + '"}'
 
 
@@ -123,12 +134,11 @@ def _build_chain(case):
     override = E_OVERRIDE if case['override'] else None
     levels = case['levels']
     n = len(levels)
-    top = ('@charset "%s";' % E_TOP if case['parent'] is True else '') + '@import "l1.css";\nj{}\n.m{content:"'
-    if case['top'] == 'bytes':
-        top = (codecs.BOM_UTF8 if case['parent'] == 'bom' else b'') + top.encode('ascii') + MARK + b'"}'
-    else:
-        top = top + TEXT_MARK + '"}'
+    via, tdel, tt, tmark = case['top']
+    top = _sheet_source(0, n, tmark, tdel == 'bytes', E_TOP)
     table = {}
+    if via == 'url':
+        table[TOP_HREF] = (E_TOP_TRANSPORT if tt else None, top)
     spec = []
     ndata = 0
     for i, row in enumerate(levels, 1):
@@ -137,16 +147,16 @@ def _build_chain(case):
         url = 'http://x/l%d.css' % i
         if a == 'data':
             ndata = i
-            table[url] = (http, _sheet_source(i, n, row, d == 'bytes'))
+            table[url] = (http, _sheet_source(i, n, m, d == 'bytes', E_CONTENT[i - 1]))
             spec.append((http, ref.content_encoding(m, E_CONTENT[i - 1], d)))
         elif a == 'none':
             table[url] = None
         else:
             table[url] = (http, None)
-    encs = ref.chain(override, {True: E_TOP, 'bom': 'utf-8'}.get(case['parent']), spec)
+    encs = ref.chain(override, E_TOP_TRANSPORT if tt else None, ref.content_encoding(tmark, E_TOP, tdel), spec)
     exp = []
     for i, (enc, rung) in enumerate(encs):
-        as_bytes = (case['top'] == 'bytes') if i == 0 else (levels[i - 1][2] == 'bytes')
+        as_bytes = (tdel == 'bytes') if i == 0 else (levels[i - 1][2] == 'bytes')
         exp.append((enc, rung, MARK.decode(enc) if as_bytes else TEXT_MARK))
     return top, override, table, exp, ndata
 
@@ -201,6 +211,8 @@ def _label(enc, level):
         return 'override'
     if n == ref.norm(E_TOP):
         return 'top-charset'
+    if n == ref.norm(E_TOP_TRANSPORT):
+        return 'top-transport'
     for kind, names in (('transport', E_TRANSPORT), ('content', E_CONTENT)):
         for i, name in enumerate(names, 1):
             if n == ref.norm(name):
@@ -218,11 +230,17 @@ def _marker_label(s, level):
     return 'other'
 
 
-def _run_chain(res, case):
+def _judge_chain(res, case):
+    """run one chain, count into res, return the violations as dicts (the caller makes the signatures)"""
     guard.pristine()
     top, override, table, exp, ndata = _build_chain(case)
     levels = case['levels']
     asked = []
+    vs = []
+
+    def bad(clause, symptom, expected, observed, where=None, rung=None, label=None, delivery=None, lv=0):
+        vs.append({'clause': clause, 'symptom': symptom, 'where': where, 'rung': rung, 'label': label, 'delivery': delivery,
+                   'expected': expected, 'observed': observed, 'size': len(levels) * 1000 + lv})
 
     def fetch(url):
         asked.append(url)
@@ -232,14 +250,18 @@ def _run_chain(res, case):
     res.clauses['C08.noraise'] += 1
     try:
         with guard.watchdog(WD):
-            sheet = cssutils.CSSParser(fetcher=fetch).parseString(top, encoding=override, href=TOP_HREF)
+            parser = cssutils.CSSParser(fetcher=fetch)
+            if case['top'][0] == 'url':
+                sheet = parser.parseUrl(TOP_HREF, encoding=override)
+            else:
+                sheet = parser.parseString(top, encoding=override, href=TOP_HREF)
             obs = _observe_chain(sheet, len(levels))
     except guard.Timeout:
-        res.violation('C08.noraise', 'timeout|import-chain', case, 'a style sheet', 'no answer within %d s' % WD)
-        return
+        bad('C08.noraise', 'timeout|import-chain', 'a style sheet', 'no answer within %d s' % WD)
+        return vs
     except Exception as e:
-        res.violation('C08.noraise', guard.crash_site(e) + '|import-chain', case, 'a style sheet', repr(e))
-        return
+        bad('C08.noraise', guard.crash_site(e) + '|import-chain', 'a style sheet', repr(e))
+        return vs
     res.validated += 1
     res.counters['p1.fetches'] += len(asked)
     if len({r for _, r, _ in exp}) > 1 or any(sum(1 for x in (override, row[0], row[1] != 'none') if x) > 1 for row in levels if row[3] == 'data'):
@@ -247,32 +269,29 @@ def _run_chain(res, case):
     okey = []
     for lv in range(ndata + 1):
         where = 'top' if lv == 0 else 'direct' if lv == 1 else 'nested'
-        delivery = case['top'] if lv == 0 else levels[lv - 1][2]
+        delivery = case['top'][1] if lv == 0 else levels[lv - 1][2]
         enc, rung, mark = exp[lv]
         if lv >= len(obs):
             res.clauses['C08.ladder'] += 1
-            res.violation('C08.ladder', f'imported-sheet-absent|{where}|delivery={delivery}|expected={rung}', case,
-                          {'level': lv, 'encoding': enc}, {'levels_observed': len(obs), 'asked': asked})
+            bad('C08.ladder', 'imported-sheet-absent', {'level': lv, 'encoding': enc}, {'levels_observed': len(obs), 'asked': asked}, where, rung, lv=lv)
             break
         o = obs[lv]
         res.sets['rungs_seen'].add(rung)
         clause = 'C08.override' if override and lv >= 1 else 'C08.ladder'
         res.clauses[clause] += 1
         if not ref.same(o['encoding'], enc):
-            res.violation(clause, f'reported-encoding|{where}|delivery={delivery}|expected={rung}|observed={_label(o["encoding"], lv)}', case,
-                          {'level': lv, 'encoding': enc, 'rung': rung}, {'encoding': o['encoding']}, size=len(levels) * 1000 + lv)
+            bad(clause, 'reported-encoding', {'level': lv, 'encoding': enc, 'rung': rung}, {'encoding': o['encoding']}, where, rung, _label(o['encoding'], lv), lv=lv)
         res.clauses['C08.marker'] += 1
         if o['marker'] != mark:
-            res.violation('C08.marker', f'{where}|delivery={delivery}|expected={rung}|observed={_marker_label(o["marker"], lv)}', case,
-                          {'level': lv, 'marker': mark, 'decoder': enc}, {'marker': o['marker'], 'reported': o['encoding']}, size=len(levels) * 1000 + lv)
+            bad('C08.marker', 'marker', {'level': lv, 'marker': mark, 'decoder': enc}, {'marker': o['marker'], 'reported': o['encoding']},
+                where, rung, _marker_label(o['marker'], lv), delivery, lv=lv)
         res.clauses['C08.reported'] += 1
         if o['encoding'] != (o['charset_rule'] or 'utf-8') or o['n_charset'] > 1:
-            res.violation('C08.reported', f'import-chain|{where}|rule={"present" if o["charset_rule"] else "absent"}|n={min(o["n_charset"], 2)}', case,
-                          o['charset_rule'] or 'utf-8', {'encoding': o['encoding'], 'charset_rules': o['n_charset']})
+            bad('C08.reported', f'import-chain|rule={"present" if o["charset_rule"] else "absent"}|n={min(o["n_charset"], 2)}',
+                o['charset_rule'] or 'utf-8', {'encoding': o['encoding'], 'charset_rules': o['n_charset']}, where, lv=lv)
         res.clauses['C08.decodable'] += 1
         if not o['bytes'] or o['decodes'] is not True:
-            res.violation('C08.decodable', f'import-chain|{where}|{"not-bytes" if not o["bytes"] else "undecodable"}', case,
-                          'bytes decodable in ' + str(o['encoding']), o['decodes'])
+            bad('C08.decodable', f'import-chain|{"not-bytes" if not o["bytes"] else "undecodable"}', 'bytes decodable in ' + str(o['encoding']), o['decodes'], where, lv=lv)
         okey.append((rung, _label(o['encoding'], lv), _marker_label(o['marker'], lv), where))
         res.sets['ladder_outcomes'].add(repr(okey[-1]))
     # fetcher said "nothing there": rule kept, nothing loaded, no exception
@@ -282,15 +301,44 @@ def _run_chain(res, case):
         child = obs[ndata + 1] if ndata + 1 < len(obs) else None
         answer = levels[ndata][3] + ('+charset' if levels[ndata][0] else '')
         if o.get('imports') != 1:
-            res.violation('C08.ladder', f'import-rule-not-kept|answer={answer}', case, 'the @import rule stays', {'import_rules': o.get('imports')})
+            bad('C08.ladder', 'import-rule-not-kept', 'the @import rule stays', {'import_rules': o.get('imports')}, label='answer=' + answer)
         elif child is not None and child['n_rules']:
-            res.violation('C08.ladder', f'sheet-from-nothing|answer={answer}', case, 'styleSheet None or without rules', child)
+            bad('C08.ladder', 'sheet-from-nothing', 'styleSheet None or without rules', child, label='answer=' + answer)
         okey.append(('absent', answer, child is None))
     res.outcomes.add(h64(repr(okey)))
+    return vs
 
 
-def _chain_case(override, parent, top, levels):
-    return {'kind': 'chain', 'override': override, 'parent': parent, 'top': top, 'levels': levels}
+def _run_chain(res, case):
+    vs = _judge_chain(res, case)
+    if not vs:
+        return
+    # one-step counterfactual on the way the top sheet was obtained: the same sources handed to parseString
+    only_url = False
+    if case['top'][0] == 'url':
+        twin = dict(case, top=['string', case['top'][1], 0, case['top'][3]])
+        only_url = not _judge_chain(Result(res.seed), twin)
+    for v in vs:
+        if v['clause'] == 'C08.noraise':
+            sig = v['symptom']
+        elif only_url:
+            sig = v['symptom'] + '|only-when-top-sheet-comes-from-parseUrl' + (f'|observed={v["label"]}' if v['label'] and not v['label'].startswith('answer=') else '')
+        else:
+            parts = [v['symptom']]
+            if v['where']:
+                parts.append(v['where'])
+            if v['delivery']:
+                parts.append('delivery=' + v['delivery'])
+            if v['rung']:
+                parts.append('expected=' + v['rung'])
+            if v['label']:
+                parts.append(v['label'] if v['label'].startswith('answer=') else 'observed=' + v['label'])
+            sig = '|'.join(parts)
+        res.violation(v['clause'], sig, case, v['expected'], v['observed'], size=v['size'])
+
+
+def _chain_case(override, top, levels):
+    return {'kind': 'chain', 'override': override, 'top': top, 'levels': levels}
 
 
 # ----------------------------------------------------------------------------------------
@@ -509,7 +557,7 @@ def _essential(case, clause, symptom):
     """one-step counterfactuals in a fixed order: which ingredients of the witness does this violation need?"""
     parts = []
     cur = dict(case)
-    for dim in ('char', 'context', 'target', 'initial', 'position'):
+    for dim in ('target', 'char', 'context', 'initial', 'position'):
         if dim == 'char':
             have = cur['chars']
             if have == [NEUTRAL['char']]:
@@ -553,7 +601,8 @@ def _run_bytes(res, case):
         seen.add((clause, symptom))
         ess = _essential(case, clause, symptom)
         res.violation(clause, f'{symptom}|{ess}', case, expected, observed,
-                      size=len(case['chars']) * 1000 + len(_token(case)) * 10 + TARGETS.index(case['target']))
+                      size=len(case['chars']) * 1000 + len(_token(case)) * 10 + sum(
+                          1 for d in ('target', 'context', 'initial', 'position') if case[d] != NEUTRAL[d]) + (case['chars'] != [NEUTRAL['char']]))
 
 
 def _bytes_case(position, context, chars, target, initial):
@@ -587,14 +636,14 @@ def _run_sequence(res, case):
             others = [r.cssText for r in sheet.cssRules if r.type != R.CHARSET_RULE]
             for step, v in enumerate(case['values']):
                 sheet.encoding = v
-                model = v.lower() if v else None
+                model = v
                 res.clauses['C08.reported'] += 1
                 res.transitions += 1
                 rules = list(sheet.cssRules)
                 rule_enc = rules[0].encoding if rules and rules[0].type == R.CHARSET_RULE else None
                 ncs = sum(1 for r in rules if r.type == R.CHARSET_RULE)
                 kind = 'none' if v is None else 'name'
-                if sheet.encoding != (model or 'utf-8') or rule_enc != model or ncs != (1 if model else 0):
+                if sheet.encoding != (rule_enc or 'utf-8') or (rule_enc is None) != (model is None) or (model and not ref.same(rule_enc, model)) or ncs != (1 if model else 0):
                     res.violation('C08.reported', f'sequence|after-assigning-{kind}|rule={"present" if rule_enc else "absent"}|n={min(ncs, 2)}', case,
                                   {'encoding': model or 'utf-8', 'rule': model}, {'encoding': sheet.encoding, 'rule': rule_enc, 'charset_rules': ncs, 'step': step})
                     return
@@ -608,7 +657,7 @@ def _run_sequence(res, case):
                 except (UnicodeError, AttributeError) as e:
                     res.violation('C08.decodable', f'sequence|after-assigning-{kind}', case, 'bytes decodable in ' + sheet.encoding, repr(e))
                     return
-                head = '@charset "%s";' % model if model else ''
+                head = '@charset "%s";' % rule_enc if model else ''
                 if not text.startswith(head) or (not model and text.startswith('@charset')):
                     res.violation('C08.reported', f'sequence|serialised-rule|after-assigning-{kind}', case, head, text[:40])
                     return
@@ -628,7 +677,8 @@ def bounds(tier):
     q = tier == 'quick'
     return {
         'ladder_override': [None, E_OVERRIDE],
-        'ladder_top': {'delivery': ['text', 'bytes'], 'marker': ['none', '@charset "%s"' % E_TOP, 'BOM (bytes, no override)']},
+        'ladder_top': {'via': ['parseString', 'parseUrl'], 'delivery': ['text', 'bytes'], 'transport (parseUrl)': [None, E_TOP_TRANSPORT],
+                       'marker': ['none', '@charset "%s"' % E_TOP, 'BOM (bytes, no override, no transport)'], 'combinations': len(TOPS)},
         'ladder_rows_per_level': len(ROWS),
         'ladder_transport_by_level': E_TRANSPORT[:_depth(tier)],
         'ladder_content_by_level': E_CONTENT[:_depth(tier)],
@@ -649,12 +699,9 @@ def bounds(tier):
 def plan(tier):
     shards = []
     for override in (False, True):
-        for parent in (False, True, 'bom'):
-            for top in ('text', 'bytes'):
-                if parent == 'bom' and (override or top == 'text'):
-                    continue  # a BOM exists in bytes only, and under an override it is not read as one
-                for ri in range(len(ROWS)):
-                    shards.append(['ladder', override, parent, top, ri])
+        for top in _tops(override):
+            for ri in range(len(ROWS)):
+                shards.append(['ladder', override, top, ri])
     for pos in POSITIONS:
         for target in TARGETS:
             shards.append(['bytes', pos, target])
@@ -669,12 +716,12 @@ def run_shard(shard, tier, seed):
     res = Result(seed)
     kind = shard[0]
     if kind == 'ladder':
-        _, override, parent, top, ri = shard
+        _, override, top, ri = shard
         chains = _chains(ROWS[ri], override, _depth(tier))
         for levels in chains:
-            _run_chain(res, _chain_case(override, parent, top, levels))
+            _run_chain(res, _chain_case(override, top, levels))
         pick = chains[h64(repr(shard) + str(seed)) % len(chains)]
-        res.sample(_chain_case(override, parent, top, pick))
+        res.sample(_chain_case(override, top, pick))
     elif kind == 'bytes':
         _, pos, target = shard
         stringish = POSITIONS[pos][1]
@@ -722,7 +769,8 @@ def standalone(case, v):
             f'table = {table!r}\n'
             'asked = []\n'
             'def fetch(url):\n    asked.append(url)\n    return table.get(url)\n'
-            f'sheet = cssutils.CSSParser(fetcher=fetch).parseString({top!r}, encoding={override!r}, href={TOP_HREF!r})\n'
+            + (f'sheet = cssutils.CSSParser(fetcher=fetch).parseUrl({TOP_HREF!r}, encoding={override!r})\n' if case['top'][0] == 'url' else
+               f'sheet = cssutils.CSSParser(fetcher=fetch).parseString({top!r}, encoding={override!r}, href={TOP_HREF!r})\n') +
             'level = 0\n'
             'while sheet is not None:\n'
             '    marker = [r.style.getProperty("content").propertyValue[0].value for r in sheet.cssRules if r.type == r.STYLE_RULE and r.selectorText == ".m"]\n'
